@@ -48,6 +48,7 @@ bool eq(const char* a, const char* b) { return std::strcmp(a, b) == 0; }
 // the observation hook: one trace line per hook, emitted atomically with the operation it reports
 extern "C" void dispenso_verif_hook(const char* what, const void* obj, long a, long b) {
   if (dsched::tid() < 0) return;
+  if (std::strncmp(what, "wake.", 5) == 0) return;  // call markers of the wake protocol (C07 / C09), not ledger events
   dsched::noPreempt(true);
   if (eq(what, "pool.ctor")) g_pool = const_cast<dispenso::ThreadPool*>(static_cast<const dispenso::ThreadPool*>(obj));
   if (eq(what, "pool.inline0") || eq(what, "pool.inline") || eq(what, "pool.take.central") || eq(what, "pool.resize.begin") ||
